@@ -220,9 +220,11 @@ func rsToDER(r, s *big.Int, err error) ([]byte, error) {
 
 var signEntries = []signEntry{
 	{"sm2.SignASN1(SM2SignerOption)", false, func(rd io.Reader, p *sm2.PrivateKey, uid, msg, e []byte) ([]byte, error) {
+		uid, msg = adjacent(uid, msg)
 		return sm2.SignASN1(rd, p, msg, sm2.NewSM2SignerOption(true, uid))
 	}},
 	{"PrivateKey.Sign(SM2SignerOption)", false, func(rd io.Reader, p *sm2.PrivateKey, uid, msg, e []byte) ([]byte, error) {
+		uid, msg = adjacent(uid, msg)
 		return p.Sign(rd, msg, sm2.NewSM2SignerOption(true, uid))
 	}},
 	{"PrivateKey.Sign(DefaultSM2SignerOpts)", true, func(rd io.Reader, p *sm2.PrivateKey, uid, msg, e []byte) ([]byte, error) {
@@ -235,9 +237,11 @@ var signEntries = []signEntry{
 		return p.Sign(rd, e, sm2.NewSM2SignerOption(false, uid))
 	}},
 	{"PrivateKey.SignWithSM2", false, func(rd io.Reader, p *sm2.PrivateKey, uid, msg, e []byte) ([]byte, error) {
+		uid, msg = adjacent(uid, msg)
 		return p.SignWithSM2(rd, uid, msg)
 	}},
 	{"sm2.SignWithSM2", false, func(rd io.Reader, p *sm2.PrivateKey, uid, msg, e []byte) ([]byte, error) {
+		uid, msg = adjacent(uid, msg)
 		return rsToDER(sm2.SignWithSM2(rd, &p.PrivateKey, uid, msg))
 	}},
 	{"sm2.Sign", false, func(rd io.Reader, p *sm2.PrivateKey, uid, msg, e []byte) ([]byte, error) {
@@ -246,6 +250,21 @@ var signEntries = []signEntry{
 }
 
 // vctx is one verification context (public key, UID as passed to the library, message, reference digest).
+// adjacent lays uid and msg out as one record (uid directly followed by msg in the same backing array, uid's capacity
+// reaching over msg): results must not depend on what lies behind an argument. Returns the two views.
+func adjacent(uid, msg []byte) (u, m []byte) {
+	if len(uid) == 0 {
+		return uid, msg
+	}
+	rec := make([]byte, len(uid)+len(msg)+8)
+	copy(rec, uid)
+	copy(rec[len(uid):], msg)
+	for i := len(uid) + len(msg); i < len(rec); i++ {
+		rec[i] = 0xD1
+	}
+	return rec[:len(uid):len(rec)], rec[len(uid) : len(uid)+len(msg) : len(rec)]
+}
+
 type vctx struct {
 	c      *ecref.Curve
 	g, p   *Table
@@ -309,7 +328,8 @@ var verifyEntries = []verifyEntry{
 		if v.digestOnly {
 			return false, false
 		}
-		return sm2.VerifyASN1WithSM2(v.pub, v.uid, v.msg, sig), true
+		au, am := adjacent(v.uid, v.msg)
+		return sm2.VerifyASN1WithSM2(v.pub, au, am, sig), true
 	}},
 	{"sm2.Verify", func(v *vctx, sig []byte, r, s *big.Int, parsed bool) (bool, bool) {
 		if !parsed {
